@@ -119,8 +119,11 @@ class LoopSpec:
     unroll             -> int: unroll that many times instead of cutting (concrete bound)
     """
     def __init__(self, inv=None, havoc=None, decreases=None, carried=None, index=None,
-                 frame=None, step=None, on_head=None, on_init=None, keep=()):
+                 frame=None, step=None, on_head=None, on_init=None, keep=(), target_after='last'):
         self.keep = tuple(keep)     # loop-carried locals that deliberately keep their pre-loop (symbolic) value
+        # 'last': after the loop the target holds the last element (branches on an empty sequence);
+        # 'unknown': the target is marked possibly-unbound / stale instead (no branch; reading it is an error)
+        self.target_after = target_after
         self.step = step
         self.on_head = on_head
         self.on_init = on_init
@@ -2388,7 +2391,10 @@ class Interp:
             # after the loop the target names hold the last element (if any) unless the body rebinds them
             tnames = assigned_names([ast.Assign(targets=[s.target], value=ast.Constant(0))])
             if not (set(tnames) & set(assigned_names(s.body))):
-                if e.branch(n > 0, f'{tag}/ran-at-least-once'):
+                if getattr(spec, 'target_after', 'last') == 'unknown':
+                    for nm in tnames:
+                        env.set(nm, MaybeStale(nm))
+                elif e.branch(n > 0, f'{tag}/ran-at-least-once'):
                     self.assign(s.target, view.get(n - 1), env)
         self.exec_block(s.orelse, env)
 
